@@ -20,6 +20,8 @@ ASSUMPTIONS = ["plain str rows contain no ESC (fmtstr(str) would parse them; cov
                "__setitem__ extend the array to sys.maxsize rows); column regions satisfy 0 <= c0 <= c1 <= width "
                "(the statement is silent about columns beyond the width); a[i] = row (int subscript, no tuple) replaces "
                "the row object unchecked and is outside the statement",
+               "empty regions (r0 == r1 or c0 == c1) are outside the statement: no error is required there whatever the block is, "
+               "only 'no cell changes', which IS checked (and the tie still compares outcome and the extended rows)",
                "'blank' = a cell beyond the stored length of its row or an unformatted space (what the padding writes)",
                "a str value is read as the block of its characters (one per row), in the domain only for one-column regions"]
 
@@ -269,9 +271,10 @@ def check_assign(op, before, after, W, raised):
     if raised:
         return out
     empty_region = r0 == r1 or c0 == c1
-    if empty_region and not changed:
-        out.append(("an empty region (rows %d:%d cols %d:%d) accepted a block of %d rows with lengths %r without an error"
-                    % (r0, r1, c0, c1, len(block), [len(b) for b in block]), "D22"))
+    if empty_region:
+        # outside the statement: a region without cells requires no error, only that no cell changes
+        if changed:
+            out.append(("assignment to an empty region (rows %d:%d cols %d:%d) changed cells %r" % (r0, r1, c0, c1, changed[:4]), None))
         return out
     # D19 footprint: right row count, every over-long row meets an existing row that ends at or before the region end and
     # the result still fits the width; then the overflow lands in cells beyond the region that were blank, and everything
@@ -576,17 +579,11 @@ def check(ctx):
         ctx.count(c, nontrivial=nontrivial(c, rep), tag=tag(c))
         for what, fp in oracle(c):
             ctx.violation(what, c, fp)
-    # witnesses of the recorded findings, replayed on the real code (the Lean side proves them for the model)
+    # witness of the recorded finding, replayed on the real code (the Lean side proves them for the model)
     a = FSArray(1, 3)
     a[0:1, 0:1] = ["xz"]
     if cells(a.rows[0]) != [("x", ()), ("z", ())]:
         ctx.note("stale finding D19: FSArray(1,3); a[0:1,0:1]=['xz'] no longer writes 'z' outside the region")
-    a = FSArray(1, 3)
-    try:
-        a[0:0, 0:1] = ["x"]
-        a[0:1, 1:1] = ["x"]
-    except Exception:  # noqa: BLE001
-        ctx.note("stale finding D22: assignment of a non-empty block to an empty region now raises")
 
 
 def search(ctx):
